@@ -22,8 +22,8 @@ ASSUMPTIONS = [
     "RouterOS: a block is a section (its row is one path word), leaves live under sections (a leaf outside every section does not exist in RouterOS exports and is outside the domain)",
 ]
 EXHAUSTIVE = {"quick": True, "thorough": True}
-FLOORS = {"quick": {"roundtrips": 20000, "vendors": 14, "fixpoints": 20000, "custom_indent_roundtrips": 5000, "device_texts": 1500, "annotations_written": 1500, "nokia_nested_configure_rows": 150},
-          "thorough": {"roundtrips": 400000, "vendors": 14, "fixpoints": 400000, "custom_indent_roundtrips": 80000, "device_texts": 25000, "annotations_written": 25000, "nokia_nested_configure_rows": 2500}}
+FLOORS = {"quick": {"roundtrips": 20000, "vendors": 14, "fixpoints": 20000, "custom_indent_roundtrips": 5000, "device_texts": 1500, "annotations_written": 1500, "nokia_nested_configure_rows": 150, "iosxr_block_end_lookalike_rows": 300},
+          "thorough": {"roundtrips": 400000, "vendors": 14, "fixpoints": 400000, "custom_indent_roundtrips": 80000, "device_texts": 25000, "annotations_written": 25000, "nokia_nested_configure_rows": 2500, "iosxr_block_end_lookalike_rows": 5000}}
 WORDS = ["a", "b1", "Eth-Trunk1", "10.0.0.1/24", "x.y", "k=v", "q_1", "peer", "description", "1", "ge-0/0/1", "descr:foo", "100:1"]
 BRACE = {"juniper", "ribbon", "nokia"}
 KNOWN = {
@@ -239,6 +239,8 @@ def device_text_case(vname, tree, sub, acc):
 def run_vendor(spec, acc):
     vname, tier = spec["vendor"], spec["tier"]
     acc.count("vendors")
+    from vf import env as _env
+    _env.vendors()[vname].make_formatter(indent="")  # what the patch / deploy paths ask for first in a process
     rng = random.Random("C04/%s/%s" % (spec["seed"], vname))
     if vname == "routeros":
         n = 2500 if tier == "quick" else 40000
@@ -315,6 +317,17 @@ def run_vendor(spec, acc):
                               {"vendor": vname, "class": "nokia-wrapped", "tree": t, "text": text.split("\n")[:30], "parsed": got})
             else:
                 acc.count("fixpoints")
+    if vname == "iosxr":
+        # rows that merely begin with a block-end word the splitter drops (`end-policy-map`, `endif-marker x`) are ordinary rows
+        for j in range(400 if tier == "quick" else 6000):
+            t = random_tree(rng, maxd=3)
+            blocks = [n for n in t if n[1]]
+            tgt = rng.choice(blocks)[1] if blocks and rng.random() < 0.7 else t
+            row = rng.choice(["end-policy-map", "endif-marker x", "end-set-of-rows here", "end-policy-global a", "endif1"])
+            if all(r != row for r, _ in tgt):
+                tgt.insert(rng.randrange(len(tgt) + 1), [row, [] if rng.random() < 0.6 else [["x 1", []]]])
+            acc.count("iosxr_block_end_lookalike_rows")
+            roundtrip(vname, t, "plain", acc)
     if vname in ("cisco",):
         for j in range(300 if tier == "quick" else 5000):
             t = random_tree(rng, maxd=3)
